@@ -255,6 +255,75 @@ def _floats_all(ctx, hi16):
     ctx.outcome('f:block')
 
 
+# call histories: the result of a codec call must not depend on earlier calls --------------------------------
+SPECIAL_FLOATS = [0.0, -0.0, 1.0, -1.0, 0.5, float('inf'), float('-inf')]
+SPECIAL_ARGS = {
+    'float_to_bytes': SPECIAL_FLOATS + [1, 0, True, False],
+    'int_to_bytes': [0, 1, -1, 255, 256, True, False, 1.0, 0.0, -0.0],
+    'bytes_to_int': [b'\x00', b'\x01', b'\x80', b'\xff', b'\x00\x01', bytearray(b'\x01'), b''],
+    'bytes_to_float': [b'\x00\x00\x00\x00', b'\x80\x00\x00\x00', b'\x3f\x80\x00\x00', bytearray(b'\x3f\x80\x00\x00'), b'\x00'],
+    'bytes_to_bool': [b'', b'\x00', b'\x01', b'\x00\x00', b'\x00\x80'],
+}
+
+
+def _call(fn, arg):
+    try:
+        r = getattr(F, fn)(arg)
+        return ('ok', type(r).__name__, r.hex() if isinstance(r, bytes) else repr(r))
+    except BaseException as e:
+        return ('raise', type(e).__name__)
+
+
+def _expected(fn, arg):
+    """fresh-call expectation from the statement (type checked arguments, exact bit patterns)"""
+    if fn == 'float_to_bytes':
+        if type(arg) is not float:
+            return ('raise', 'TypeError')
+        p = struct_free_f32(arg)
+        return ('ok', 'bytes', p.hex())
+    if fn == 'int_to_bytes':
+        if type(arg) is not int:
+            return ('raise', 'TypeError')
+        return ('ok', 'bytes', enc_ref(arg).hex())
+    if fn == 'bytes_to_int':
+        if type(arg) is not bytes:
+            return ('raise', 'TypeError')
+        if len(arg) == 0:
+            return ('raise', 'ValueError')
+        return ('ok', 'int', repr(int.from_bytes(arg, 'big', signed=True)))
+    if fn == 'bytes_to_float':
+        if type(arg) is not bytes:
+            return ('raise', 'TypeError')
+        if len(arg) != 4:
+            return ('raise', 'ValueError')
+        return ('ok', 'float', repr(ref_f32(int.from_bytes(arg, 'big'))))
+    if fn == 'bytes_to_bool':
+        return ('ok', 'bool', repr(any(arg)))
+
+
+def struct_free_f32(x):
+    from ref import refvm
+    return refvm.f32_encode(x)
+
+
+def _histories(ctx, fn):
+    import itertools
+    args = SPECIAL_ARGS[fn]
+    n = 0
+    for hist in itertools.permutations(range(len(args)), 3):
+        for i in hist:
+            n += 1
+            got = _call(fn, args[i])
+            want = _expected(fn, args[i])
+            ctx.ran()
+            ctx.trans()
+            if got != want:
+                ctx.violation({'fn': fn, 'clause': 'result depends on earlier calls / differs from a fresh call'},
+                              f'{fn}({args[i]!r}) after calls on {[args[j] for j in hist]}: {got} expected {want}')
+        ctx.state((fn, hist))
+    ctx.evaluations += n - 1
+
+
 # instruction level ---------------------------------------------------------
 def boundary_ints(maxbits):
     vals = {0, 1, -1, 2, -2, 3, -3, 127, 128, -128, -129, 255, 256, -255, -256, -257}
@@ -372,6 +441,9 @@ def blocks(tier, seed):
     if not q:
         bl.append(Block('floats_all_2^32', list(range(65536)), _floats_all,
                         'all 2^32 float32 bit patterns', nshards=256, backstop=3600))
+    bl.append(Block('codec_call_histories', list(SPECIAL_ARGS), _histories,
+                    'every ordered triple of calls over values that compare equal but encode differently (0.0/-0.0, 1/True/1.0, bytes/bytearray)',
+                    nshards=len(SPECIAL_ARGS)))
     bi = boundary_ints(8 * MAX_ITEM - 8)
     bl.append(Block('int_instructions', bi if not q else bi[:len(bi)], _instr,
                     'ADD SUB MULT DIV MOD LESS LEQ on all ordered pairs of boundary ints'))
